@@ -96,6 +96,7 @@ def main(repo, out):
         objs.append(o)
         i = j
     eqs, bases, problems, others = [], [], [], []
+    eq_params = []
     for o in objs:
         for x in o.get('inner', []) if o.get('kind') == 'NamespaceDecl' else [o]:
             k, name = x.get('kind'), x.get('name')
@@ -107,8 +108,13 @@ def main(repo, out):
                 if k in ('ClassTemplatePartialSpecializationDecl', 'ClassTemplateSpecializationDecl'):
                     pats = [shape(c.get('type', {}).get('qualType', '')) for c in x.get('inner', []) if c.get('kind') == 'TemplateArgument']
                     tys = [c['type']['qualType'] for c in x.get('inner', []) if c.get('kind') == 'TypeAliasDecl' and c.get('name') == 'type']
+                    params = []
+                    for c in x.get('inner', []):
+                        if c.get('kind') in ('NonTypeTemplateParmDecl', 'TemplateTypeParmDecl') and c.get('name'):
+                            params.append(c['name'] + ('...' if c.get('isParameterPack') else ''))
                     for t in tys:
                         eqs.append((name, pats, parse(protect(t))))
+                        eq_params.append(params)
                     for b in x.get('bases', []):
                         bases.append((name, pats, parse(protect(b['type']['qualType']))))
                     extra = [c.get('name') for c in x.get('inner', []) if c.get('kind') in ('TypeAliasDecl', 'VarDecl', 'FieldDecl', 'CXXMethodDecl') and not (c.get('kind') == 'TypeAliasDecl' and c.get('name') == 'type') and not c.get('isImplicit')]
@@ -134,6 +140,8 @@ def main(repo, out):
            'Inductive ty := TSeq (els : list string) | TConst (n : string) | TConcat (a b : ty) | TCond (op a b : string) (t e : ty) | TCall (f : string) (args : list ty).\n'
            'Definition sp_equations : list (string * list pat * ty) := [\n  ' + ';\n  '.join(row(*e) for e in eqs) + '].\n'
            'Definition sp_bases : list (string * list pat * ty) := [\n  ' + ';\n  '.join(row(*e) for e in bases) + '].\n'
+           '(* the template parameters of each specialisation above, in declaration order (pattern variables are bound in this order) *)\n'
+           'Definition sp_params : list (list string) := [' + '; '.join('[' + '; '.join(f'"{q_}"' for q_ in ps) + ']' for ps in eq_params) + '].\n'
            f'Definition sp_problems : nat := {len(problems)}.\n')
     os.makedirs(os.path.dirname(out), exist_ok=True)
     open(out, 'w').write(txt)
